@@ -39,7 +39,8 @@ var errScript = errors.New("scripted failure")
 type plan struct {
 	attachFail bool
 	attachQid  p9p.Qid
-	walkK      int // number of qids to answer with; -1: error
+	walkK      int   // number of qids to answer with; -1: error
+	walkSeq    []int // if non-empty: one walkK per call of the FS's Walk, in order (walks sent in several messages)
 	walkQids   []p9p.Qid
 	openFail   bool
 	iounit     int
@@ -82,13 +83,17 @@ func (e sEnt) OpenDir(ctx context.Context) (p9p.ReadNext, error) {
 }
 func (e sEnt) Walk(ctx context.Context, names ...string) ([]p9p.Qid, p9p.Dirent, error) {
 	p := e.fs.p
-	if p.walkK < 0 {
+	k := p.walkK
+	if len(p.walkSeq) > 0 {
+		k = p.walkSeq[0]
+		p.walkSeq = p.walkSeq[1:]
+	}
+	if k < 0 {
 		return nil, nil, errScript
 	}
 	if len(names) == 0 {
 		return nil, sEnt{e.fs, e.qid}, nil
 	}
-	k := p.walkK
 	if k > len(names) {
 		k = len(names)
 	}
@@ -310,6 +315,25 @@ func entFid(d p9p.Dirent) uint32 {
 var nameAlphabet = []string{"a", "b", "dir1", "x", ".", "", "..", "..", ".", "c", "d", "e", "long-name-01"}
 var sepNames = []string{"x/y", "a\\b", "/\\", "/", "\\"}
 
+var plainNames = []string{"a", "b", "c", "d", "e", "dir1", "x", "long-name-01"}
+
+// genLongNames: 17..40 ordinary names (more than one Twalk can carry), sometimes with
+// "" / "." sprinkled in, which the layer drops before sending.
+func genLongNames(rng *prng.R) []string {
+	n := rng.Range(14, 40)
+	if rng.Bool() {
+		n = rng.Pick(15, 16, 17, 18, 31, 32, 33, 40)
+	}
+	var l []string
+	for i := 0; i < n; i++ {
+		l = append(l, plainNames[rng.Intn(len(plainNames))])
+		if rng.Chance(1, 15) {
+			l = append(l, []string{"", "."}[rng.Intn(2)])
+		}
+	}
+	return l
+}
+
 func genNames(rng *prng.R) []string {
 	switch rng.Intn(12) {
 	case 0:
@@ -383,14 +407,61 @@ func contains(f []uint32, x uint32) bool {
 	return false
 }
 
-func runSeq(r *rep.Report, rng *prng.R) {
-	ctx, cancel := context.WithTimeout(context.Background(), 120*time.Second)
+// runSeq: e2e = false: CFileSys(spy(SFileSys(scripted FS)));
+// e2e = true: CFileSys(spy(CSession)) -> in-memory conn -> ServeConn(SSession(SFileSys(scripted FS))),
+// i.e. the real client session (csession.go) is what answers the layer's calls, and the fid
+// table read is the one of the SFileSys at the far end.
+func runSeq(r *rep.Report, rng *prng.R, e2e bool) {
+	ctx, cancel := context.WithTimeout(context.Background(), 900*time.Second)
 	defer cancel()
 	p := &plan{}
 	fs := &sFS{p}
 	inner := p9p.SFileSys(fs)
 	msize := rng.Pick(65536, 65536, 8192, 12, 11)
-	sp := &spy{inner: inner, msize: msize}
+	var sess p9p.Session = inner
+	if e2e {
+		msize = 65536 // what CSession and ServeConn negotiate
+		// ServeConn allows version negotiation one second of wall-clock; on a loaded machine that
+		// can expire before the exchange happened, which says nothing about the property: set up again.
+		for try := 0; ; try++ {
+			cc, sc := newMemPair(0)
+			served := make(chan error, 1)
+			go func() { served <- p9p.ServeConn(ctx, sc, p9p.SSession(inner)) }()
+			cs, err := func() (p9p.Session, error) {
+				type res struct {
+					s   p9p.Session
+					err error
+				}
+				ch := make(chan res, 1)
+				go func() { s, err := p9p.CSession(ctx, cc); ch <- res{s, err} }()
+				select {
+				case x := <-ch:
+					return x.s, x.err
+				case serr := <-served:
+					cc.Close()
+					<-ch
+					return nil, fmt.Errorf("server left: %v", serr)
+				}
+			}()
+			if err == nil {
+				sess = cs
+				defer func() {
+					cc.Close()
+					select {
+					case <-served:
+					case <-time.After(30 * time.Second):
+					}
+				}()
+				break
+			}
+			cc.Close()
+			if try >= 10 {
+				panic(fmt.Sprintf("e2e set-up failed 10 times: %v", err))
+			}
+			inner = p9p.SFileSys(fs)
+		}
+	}
+	sp := &spy{inner: sess, msize: msize}
 	cfs := p9p.CFileSys(sp)
 
 	var slots []slotInfo
@@ -406,6 +477,14 @@ func runSeq(r *rep.Report, rng *prng.R) {
 
 	// one operation: runs it, appends to ops/obs, applies the per-operation oracles
 	do := func(kind string, si int) {
+		var walkNames []string
+		if kind == "walk" {
+			if rng.Chance(1, 4) {
+				walkNames = genLongNames(rng)
+			} else {
+				walkNames = genNames(rng)
+			}
+		}
 		*p = plan{
 			attachFail: rng.Chance(1, 8), attachQid: genQid(rng, 90),
 			walkK: 99, openFail: rng.Chance(1, 6),
@@ -422,9 +501,22 @@ func runSeq(r *rep.Report, rng *prng.R) {
 		case 1, 2:
 			p.walkK = rng.Intn(4)
 		}
-		for i := 0; i < 8; i++ {
+		for i := 0; i < 64; i++ {
 			dp := 85
 			p.walkQids = append(p.walkQids, genQid(rng, dp))
+		}
+		if steps, bsp := p9p.NormalizePath(walkNames); bsp >= 0 && len(steps) > 4 {
+			// a long walk: all names exist / the walk stops somewhere / fails; and, should the
+			// session send it in several messages, the first message succeeds and a later one does not
+			switch rng.Intn(4) {
+			case 0:
+				p.walkK = 99
+			case 1:
+				p.walkK = rng.Intn(len(steps))
+			}
+			if len(steps) > 16 {
+				p.walkSeq = []int{99, rng.Pick(-1, 0, rng.Intn(len(steps)-16), 99), rng.Pick(-1, 0, 99)}
+			}
 		}
 		if kind == "create" {
 			// SFileSys opens a created directory itself; a failure there takes its own
@@ -440,7 +532,6 @@ func runSeq(r *rep.Report, rng *prng.R) {
 			ent, efid = slots[si].ent, slots[si].fid
 		}
 		panicked := false
-		var walkNames []string
 		var walkRes struct {
 			qids []p9p.Qid
 			ent  p9p.Dirent
@@ -472,7 +563,6 @@ func runSeq(r *rep.Report, rng *prng.R) {
 					slots = append(slots, slotInfo{e, f, true})
 				}
 			case "walk":
-				walkNames = genNames(rng)
 				opHead = []sx.S{sx.Sym("walk"), sx.I(int64(si)), sx.Strs(walkNames)}
 				qids, e, err := ent.Walk(ctx, walkNames...)
 				walkRes.qids, walkRes.ent, walkRes.err = qids, e, err
@@ -693,6 +783,9 @@ func runSeq(r *rep.Report, rng *prng.R) {
 		r.Fail("cfs.leak", fmt.Sprintf("every entry obtained was clunked or removed, the server still holds fids %v", bound), c, nil)
 	}
 	br := "cfs"
+	if e2e {
+		br = "cfs-e2e"
+	}
 	if hasWalkDot {
 		br += ":normalised-walk"
 	}
@@ -722,11 +815,17 @@ func main() {
 	if uint32(p9p.NOFID) != 0xFFFFFFFF || p9p.QTDIR != 0x80 || p9p.OREAD != 0 {
 		panic("NOFID/QTDIR/OREAD differ from the constants of Model/Cfs.v")
 	}
-	r.Rule = "random sequences of 3..30 Attach/Walk/Open/OpenDir/Create/Stat/WStat/Clunk/Remove on CFileSys(spy(SFileSys(scripted FS))), name lists over {a,b,dir1,x,'.','','..',x/y,a\\b,random bytes} incl. (dir1 .), (x ..), (.), the FS answering each call by script (complete/partial/failed walks, failing opens/creates/clunks), every sequence closed by clunking or removing all live entries; plus long histories (one attach, 85000..1200000 walk(+clunk/remove) rounds from the live root, 72000..960000 fid allocations, some entries kept live) described by three numbers and expanded identically by harness and model, compared on the fid of every call. Non-trivial: more than one operation; distinct by canonical case text."
+	r.Rule = "random sequences of 3..30 Attach/Walk/Open/OpenDir/Create/Stat/WStat/Clunk/Remove on CFileSys(spy(SFileSys(scripted FS))), name lists over {a,b,dir1,x,'.','','..',x/y,a\\b,random bytes} incl. (dir1 .), (x ..), (.), the FS answering each call by script (complete/partial/failed walks, failing opens/creates/clunks), name lists of up to 40 names, every sequence closed by clunking or removing all live entries; the same family end to end over CFileSys(spy(CSession))->in-memory conn->ServeConn(SSession(SFileSys(scripted FS))) with the fid table read at the far end; plus long histories (one attach, 85000..1200000 walk(+clunk/remove) rounds from the live root, 72000..960000 fid allocations, some entries kept live) described by three numbers and expanded identically by harness and model, compared on the fid of every call. Non-trivial: more than one operation; distinct by canonical case text."
 	rng := prng.New(r.Seed)
 	n := r.N(600, 15000)
 	for i := 0; i < n; i++ {
-		runSeq(r, rng.Fork())
+		runSeq(r, rng.Fork(), false)
+	}
+	// the same over the real client session and a connection (walks of more than 16 names meet
+	// csession.go's Walk here)
+	ne := r.N(150, 3000)
+	for i := 0; i < ne; i++ {
+		runSeq(r, rng.Fork(), true)
 	}
 	r.Extra["operations_by_result"] = opResults
 	// long histories: past 2^16 fid allocations with the root and early entries live
